@@ -117,6 +117,7 @@ def abstract(solver, ids, slots):
         'conds': [abstract_cond(ids, ci, c, slots) for ci, c in enumerate(solver.conditions)],
         'loss': loss_id(ids, solver.loss_fn),
         'global_epoch': solver.global_epoch,
+        'draws': gen_counts(solver),
     }
     if kind == 'BundleSolver1D':
         off = len(solver.conditions) + 1
@@ -124,6 +125,31 @@ def abstract(solver, ids, slots):
     else:
         st['top'] = None
     return st
+
+
+def gen_counts(solver):
+    out = []
+    for key in ('train', 'valid'):
+        g = getattr(solver.generator[key], 'generator', None)
+        out.append(getattr(g, 'count', 0))
+    return out
+
+
+def rng_states(torch):
+    import random
+    import numpy as np
+    return {'torch': torch.get_rng_state().clone(), 'python': random.getstate(), 'numpy': np.random.get_state()[1].copy()}
+
+
+def rng_changes(torch, before, after):
+    out = []
+    if not torch.equal(before['torch'], after['torch']):
+        out.append('torch')
+    if before['python'] != after['python']:
+        out.append('python')
+    if not (before['numpy'] == after['numpy']).all():
+        out.append('numpy')
+    return out
 
 
 # ------------------------------------------------------------------ Coq rendering
@@ -160,18 +186,21 @@ def coq_opt(x, f):
 def coq_state(a, n_params, eqs):
     layers = '[' + '; '.join('[' + '; '.join(str(i) for i in l) + ']' for l in eqs) + ']'
     return (f'(mkState {KIND[a["kind"]]} {coq_zl(a["nets"])} {a["opt"]}%Z {coq_ql(a["train"])} {coq_ql(a["valid"])} '
-            f'{coq_opt(a["lowest"], qlit)} {coq_opt(a["best"], coq_zl)} {coq_conds(a["conds"])} {a["loss"]} {n_params} {layers})')
+            f'{coq_opt(a["lowest"], qlit)} {coq_opt(a["best"], coq_zl)} {coq_conds(a["conds"])} {a["loss"]} {n_params} {layers} '
+            f'(mkEnv {a["draws"][0]} {a["draws"][1]} 0 0 0))')
 
 
-def coq_obs(a, next_fit_ok):
+def coq_obs(a, next_fit_ok, rng=(0, 0)):
     top = 'None' if a['top'] is None else '(Some [' + '; '.join(str(i) for i in a['top']) + '])'
     nf = 'None' if next_fit_ok is None else f'(Some {"true" if next_fit_ok else "false"})'
     return (f'(mkObs {KIND[a["kind"]]} {coq_zl(a["nets"])} {a["opt"]}%Z {coq_ql(a["train"])} {coq_ql(a["valid"])} '
-            f'{coq_opt(a["lowest"], qlit)} {coq_opt(a["best"], coq_zl)} {coq_conds(a["conds"])} {a["loss"]} {top} {nf})')
+            f'{coq_opt(a["lowest"], qlit)} {coq_opt(a["best"], coq_zl)} {coq_conds(a["conds"])} {a["loss"]} {top} {nf} '
+            f'{a["draws"][0]} {a["draws"][1]} {rng[0]} {rng[1]})')
 
 
 def coq_epochs(eps):
-    return '[' + '; '.join(f'mkEpoch {qlit(e["train"])} {qlit(e["valid"])} {coq_zl(e["nets"])} {e["opt"]}%Z' for e in eps) + ']'
+    return '[' + '; '.join(f'mkEpoch {qlit(e["train"])} {qlit(e["valid"])} {coq_zl(e["nets"])} {e["opt"]}%Z ({e["draws"][0]}, {e["draws"][1]})'
+                           for e in eps) + ']'
 
 
 PREAMBLE = """From Coq Require Import String.
@@ -182,7 +211,10 @@ Import ListNotations.
 Close Scope Q_scope.
 Local Open Scope nat_scope.
 Record obs := mkObs { o_kind : skind; o_nets : list Z; o_opt : Z; o_train : list Q; o_valid : list Q; o_lowest : option Q;
-  o_best : option (list Z); o_conds : list cond; o_loss : nat; o_top : option (list nat); o_next_fit_ok : option bool }.
+  o_best : option (list Z); o_conds : list cond; o_loss : nat; o_top : option (list nat); o_next_fit_ok : option bool;
+  o_drawn_train : nat; o_drawn_valid : nat; o_py : nat; o_torch : nat }.
+(* o_drawn_*: the counting spies around the solver's generators; o_py / o_torch: how many save()
+   calls so far changed the global `random` / torch RNG state *)
 Definition is_src (a : attr) : bool := match a with ASrc _ => true | _ => false end.
 (* the next fit() works: every wrapper layer finds its parameters and no function slot holds text *)
 Definition usable (s : state) : bool :=
@@ -193,7 +225,9 @@ Definition matches (s : state) (o : obs) : bool :=
   && oeqb Qsame (lowest s) (o_lowest o) && oeqb (leqb Z.eqb) (best s) (o_best o)
   && leqb cond_eqb (conds s) (o_conds o) && Nat.eqb (loss_id s) (o_loss o)
   && match o_top o with Some t => match eqs s with l :: _ => leqb Nat.eqb l t | [] => false end | None => true end
-  && match o_next_fit_ok o with Some b => Bool.eqb (usable s) b | None => true end.
+  && match o_next_fit_ok o with Some b => Bool.eqb (usable s) b | None => true end
+  && Nat.eqb (drawn_train (env s)) (o_drawn_train o) && Nat.eqb (drawn_valid (env s)) (o_drawn_valid o)
+  && Nat.eqb (py_random (env s)) (o_py o) && Nat.eqb (torch_rng (env s)) (o_torch o) && Nat.eqb (unknown (env s)) 0.
 (* the model runs on its own state; after every operation its observable projection must be what
    the real solver showed *)
 Fixpoint check (s : state) (tr : list (op * obs)) : bool :=
@@ -205,10 +239,29 @@ Fixpoint check (s : state) (tr : list (op * obs)) : bool :=
 
 
 # ------------------------------------------------------------------ building the real solvers
+def make_gen(torch, spec, dim, lo, hi, role):
+    """the solver's generator for `role` (train / valid), wrapped in a counting spy"""
+    from neurodiffeq.generators import Generator1D, Generator2D, BatchGenerator, ResampleGenerator
+    variant = spec.get('gen', 'default') if role == 'train' else 'default'
+    method = 'equally-spaced' if role == 'valid' else {'default': 'equally-spaced-noisy',
+                                                        'noisy': 'uniform' if dim == 1 else 'equally-spaced-noisy'}.get(variant, 'equally-spaced')
+    if dim == 1:
+        base = Generator1D(6, lo, hi, method=method)
+    elif dim == 2:
+        base = Generator2D((3, 3), lo, hi, method=method)
+    else:      # bundle: time x one bundle parameter
+        base = Generator1D(4, lo, hi, method=method) ^ Generator1D(4, 0.5, 1.5, method=method)
+    if variant == 'batch':
+        base = BatchGenerator(base, batch_size=4 if dim != 2 else 3)
+    elif variant == 'resample':
+        base = ResampleGenerator(base, size=base.size, replacement=True)
+    attrs = {'t_min': lo, 't_max': hi} if dim != 2 else {'xy_min': lo, 'xy_max': hi}
+    return PF.CountingGenerator(base, **attrs)
+
+
 def build_solver(torch, spec):
     from neurodiffeq.solvers import Solver1D, Solver2D, BundleSolver1D
     from neurodiffeq.conditions import IVP, DirichletBVP, DirichletBVP2D, BundleIVP
-    from neurodiffeq.generators import Generator1D, Generator2D
     from neurodiffeq.networks import FCNN
     torch.manual_seed(spec['seed'])
     kind, ck = spec['kind'], spec['cond']
@@ -220,9 +273,10 @@ def build_solver(torch, spec):
     nums = spec['numbers']
     if kind == '1d':
         cond = IVP(nums[0], nums[1]) if ck == 'ivp' else DirichletBVP(nums[0], nums[1], nums[0] + 1.0, nums[2])
-        return Solver1D(PF.ode1, [cond], t_min=nums[0], t_max=nums[0] + 1.0, nets=[net], optimizer=opt, loss_fn=loss,
-                        train_generator=Generator1D(6, nums[0], nums[0] + 1.0),
-                        valid_generator=Generator1D(6, nums[0], nums[0] + 1.0, method='equally-spaced'), n_batches_valid=1)
+        bounds = {} if spec.get('no_bounds') else {'t_min': nums[0], 't_max': nums[0] + 1.0}
+        return Solver1D(PF.ode1, [cond], nets=[net], optimizer=opt, loss_fn=loss,
+                        train_generator=make_gen(torch, spec, 1, nums[0], nums[0] + 1.0, 'train'),
+                        valid_generator=make_gen(torch, spec, 1, nums[0], nums[0] + 1.0, 'valid'), n_batches_valid=1, **bounds)
     if kind == '2d':
         fs = {'functions': (PF.edge_sin, PF.edge_zero, PF.edge_lin, PF.edge_zero),
               'nosource': (PF.nosrc_a, PF.nosrc_b, PF.nosrc_c, PF.nosrc_d),
@@ -230,15 +284,14 @@ def build_solver(torch, spec):
         cond = DirichletBVP2D(nums[0], fs[0], nums[0] + 1.0, fs[1], nums[1], fs[2], nums[1] + 1.0, fs[3])
         lo, hi = (nums[0], nums[1]), (nums[0] + 1.0, nums[1] + 1.0)
         return Solver2D(PF.pde_laplace, [cond], xy_min=lo, xy_max=hi, nets=[net], optimizer=opt, loss_fn=loss,
-                        train_generator=Generator2D((3, 3), lo, hi),
-                        valid_generator=Generator2D((3, 3), lo, hi, method='equally-spaced'), n_batches_valid=1)
+                        train_generator=make_gen(torch, spec, 2, lo, hi, 'train'),
+                        valid_generator=make_gen(torch, spec, 2, lo, hi, 'valid'), n_batches_valid=1)
     cond = BundleIVP(nums[0], nums[1]) if ck == 'ivp' else BundleIVP(nums[0], None, bundle_param_lookup={'u_0': 0})
     epi = (0,) if spec['eq_param'] else ()
     ode = PF.ode_bundle_param if spec['eq_param'] else PF.ode_bundle_plain
-    tg = Generator1D(4, nums[0], nums[0] + 1.0) ^ Generator1D(4, 0.5, 1.5)
-    vg = Generator1D(4, nums[0], nums[0] + 1.0, method='equally-spaced') ^ Generator1D(4, 0.5, 1.5, method='equally-spaced')
     return BundleSolver1D(ode, [cond], t_min=nums[0], t_max=nums[0] + 1.0, theta_min=(0.5,), theta_max=(1.5,), eq_param_index=epi,
-                          nets=[net], optimizer=opt, loss_fn=loss, train_generator=tg, valid_generator=vg, n_batches_valid=1)
+                          nets=[net], optimizer=opt, loss_fn=loss, train_generator=make_gen(torch, spec, 3, nums[0], nums[0] + 1.0, 'train'),
+                          valid_generator=make_gen(torch, spec, 3, nums[0], nums[0] + 1.0, 'valid'), n_batches_valid=1)
 
 
 def grid(torch, spec):
@@ -346,18 +399,25 @@ def run_scenario(ck, torch, spec, workdir, label):
     n_params = 1 if spec['kind'] == 'bundle' else 0
     eqs0 = [[0] if spec['eq_param'] else []] if spec['kind'] == 'bundle' else []
     s0 = coq_state(abstract(solver, ids, slots), n_params, eqs0)
-    trace = []                    # [coq op, abstract state after, next_fit_ok]
+    trace = []                    # [coq op, abstract state after, next_fit_ok, (py, torch) rng-change counters]
+    rng_cnt = [0, 0]              # number of save() calls so far that changed the global `random` / torch RNG state
+    fit_marks = []                # after every fit op: what a never-saved twin must reproduce
+    kname = {'1d': 'Solver1D', '2d': 'Solver2D', 'bundle': 'BundleSolver1D'}[spec['kind']]
     log = []                      # every epoch of the lineage: (valid loss, nets fingerprint, after_load?)
     sourced = spec['kind'] == '2d' and spec['cond'] in ('functions', 'mixed')
     saved_on_this_object = False
     loads = 0
     path = os.path.join(workdir, f'{label}.sol')
 
-    def rec_epochs(store):
+    def rec_epochs(store, sol):
+        last = list(gen_counts(sol))
+
         def cb(s):
+            now = gen_counts(s)
             store.append({'train': float(s.metrics_history['train_loss'][-1]), 'valid': float(s.metrics_history['valid_loss'][-1]),
                           'nets': [ids.get('net', fp_net(n)) for n in s.nets], 'opt': ids.get('opt', fp_opt(s.optimizer)),
-                          'fp': [fp_net(n) for n in s.nets]})
+                          'fp': [fp_net(n) for n in s.nets], 'draws': [now[0] - last[0], now[1] - last[1]]})
+            last[:] = now
         return cb
 
     for oi, op in enumerate(spec['ops']):
@@ -365,8 +425,9 @@ def run_scenario(ck, torch, spec, workdir, label):
         if what == 'fit':
             PF.SCALE[0] = float(op[2])
             eps = []
+            torch.manual_seed(spec['seed'] + 1000 + oi)         # every fit starts from a known RNG state (twin runs use the same)
             try:
-                solver.fit(op[1], callbacks=[rec_epochs(eps)], tqdm_file=None)
+                solver.fit(op[1], callbacks=[rec_epochs(eps, solver)], tqdm_file=None)
                 fit_ok = True
             except Exception as e:
                 fit_ok = False
@@ -389,7 +450,9 @@ def run_scenario(ck, torch, spec, workdir, label):
                 break
             for e in eps:
                 log.append((e['valid'], e['fp'], loads))
-            trace.append([f'OFit {coq_epochs(eps)}', abstract(solver, ids, slots), None])
+            trace.append([f'OFit {coq_epochs(eps)}', abstract(solver, ids, slots), None, tuple(rng_cnt)])
+            fit_marks.append((oi, list(solver.metrics_history['train_loss']), list(solver.metrics_history['valid_loss']),
+                              [fp_net(n) for n in solver.nets], gen_counts(solver)))
             ck.traces += len(eps)
             # ---- oracle: best tracking refers to the lowest validation loss of the WHOLE history
             vh = [float(v) for v in solver.metrics_history['valid_loss']]
@@ -406,14 +469,29 @@ def run_scenario(ck, torch, spec, workdir, label):
         elif what in ('save', 'saveload'):
             ref = solutions(torch, solver, spec)
             before = snapshot(solver)
+            rng0, cnt0 = rng_states(torch), gen_counts(solver)
             try:
                 with contextlib.redirect_stdout(quiet):
                     solver.save(path=path)
                 ok, exc = True, None
             except Exception as e:
                 ok, exc = False, type(e).__name__
+            rng1, cnt1 = rng_states(torch), gen_counts(solver)
             after = snapshot(solver)
             saved_on_this_object = True
+            how = 'succeeded' if ok else 'raised ' + exc
+            # ---- oracle: the generators' next draws and the global RNG streams are part of "unchanged"
+            for role, a0, a1 in (('train', cnt0[0], cnt1[0]), ('valid', cnt0[1], cnt1[1])):
+                if a1 != a0:
+                    ck.fail(f'save/consumes-{role}-generator/{kname}', f'save() ({how}) drew {a1 - a0} batch(es) from the solver\'s own {role} generator '
+                            f'({spec.get("gen", "default")}): later training no longer sees the batches a never-saved solver sees',
+                            dict(inp, failing_op=oi), a0, a1)
+            changed = rng_changes(torch, rng0, rng1)
+            for which in changed:
+                ck.fail(f'save/advances-{which}-rng/{kname}' if which != 'python' else f'save/advances-python-random/{kname}',
+                        f'save() ({how}) advanced the global {which} random state', dict(inp, failing_op=oi))
+            rng_cnt[0] += 'python' in changed
+            rng_cnt[1] += 'torch' in changed
             for suffix, desc in diff_snapshots(before, after):
                 ck.fail(f'save/{suffix}', f'save() ({"succeeded" if ok else "raised " + exc}) altered the solver: {desc}',
                         dict(inp, failing_op=oi))
@@ -423,7 +501,7 @@ def run_scenario(ck, torch, spec, workdir, label):
                         loaded = type(solver).load(path=path)
                 except Exception as e:
                     ck.fail('load/raises', f'{type(solver).__name__}.load raised {type(e).__name__}: {e}', dict(inp, failing_op=oi))
-                    trace.append([f'OSave true', abstract(solver, ids, slots), None])
+                    trace.append([f'OSave true', abstract(solver, ids, slots), None, tuple(rng_cnt)])
                     break
                 if type(loaded) is not type(solver):
                     ck.fail('load/kind-differs', f'load returned a {type(loaded).__name__} for a saved {type(solver).__name__}', dict(inp, failing_op=oi))
@@ -451,9 +529,12 @@ def run_scenario(ck, torch, spec, workdir, label):
                 solver = loaded
                 loads += 1
                 saved_on_this_object = False
-                trace.append(['OSaveLoad', abstract(solver, ids, slots), None])
+                if gen_counts(loaded) != cnt1:
+                    ck.fail('load/generator-position-differs', f'the loaded solver\'s generators have been drawn from {gen_counts(loaded)} times, '
+                            f'the saved solver\'s {cnt1} times', dict(inp, failing_op=oi), cnt1, gen_counts(loaded))
+                trace.append(['OSaveLoad', abstract(solver, ids, slots), None, tuple(rng_cnt)])
             else:
-                trace.append([f'OSave {"true" if ok else "false"}', abstract(solver, ids, slots), None])
+                trace.append([f'OSave {"true" if ok else "false"}', abstract(solver, ids, slots), None, tuple(rng_cnt)])
             ck.traces += 1
         elif what == 'checkpoint':
             from neurodiffeq.callbacks import CheckpointCallback
@@ -465,8 +546,30 @@ def run_scenario(ck, torch, spec, workdir, label):
             for suffix, desc in diff_snapshots(before, snapshot(solver)):
                 ck.fail(f'checkpoint/{suffix}', f'CheckpointCallback altered the solver: {desc}', dict(inp, failing_op=oi))
             ck.traces += 1
+    # ---- oracle: the never-saved twin.  Same construction, same fits from the same RNG states, no save /
+    # checkpoint: histories, networks and the spies' draw counts must coincide after every fit
+    if spec.get('twin') and not any(op[0] == 'saveload' for op in spec['ops']) and fit_marks:
+        PF.SCALE[0] = 1.0
+        twin = build_solver(torch, spec)
+        marks = {m[0]: m for m in fit_marks}
+        for oi, op in enumerate(spec['ops']):
+            if op[0] != 'fit' or oi not in marks:
+                continue
+            PF.SCALE[0] = float(op[2])
+            torch.manual_seed(spec['seed'] + 1000 + oi)
+            twin.fit(op[1], tqdm_file=None)
+            _, th, vh, fps, cnts = marks[oi]
+            got = (list(twin.metrics_history['train_loss']), list(twin.metrics_history['valid_loss']), [fp_net(n) for n in twin.nets], gen_counts(twin))
+            if got != (th, vh, fps, cnts):
+                what_differs = [n for n, x, y in zip(('train_loss history', 'valid_loss history', 'network parameters', 'generator draw counts'),
+                                                     got, (th, vh, fps, cnts)) if x != y]
+                ck.fail(f'save/twin-diverges/{kname}', f'after save() and further training the solver differs from an identical solver that was never '
+                        f'saved (generator variant {spec.get("gen", "default")}): {", ".join(what_differs)}', dict(inp, failing_op=oi),
+                        {'train_loss': got[0][-3:], 'draws': got[3]}, {'train_loss': th[-3:], 'draws': cnts})
+                break
+        ck.traces += len(fit_marks)
     PF.SCALE[0] = 1.0
     if not trace:
         return None
-    tr = '; '.join(f'({o}, {coq_obs(a, nf)})' for o, a, nf in trace)
+    tr = '; '.join(f'({o}, {coq_obs(a, nf, rc)})' for o, a, nf, rc in trace)
     return f'check {s0} [{tr}]'
